@@ -408,7 +408,7 @@ def judge(ctx, cases, full_header, full_checker, spec_header=None, spec_checker=
     for i, code in sorted(codes.items()):
         if code >= 1000:
             summary["out_of_domain"] += 1
-        elif code & 4:
+        elif code & ~3:
             spec_fail.append((i, code))
         else:
             model_mis.append((i, code))
